@@ -82,6 +82,52 @@ func (env *Env) lookupLocal(name string) (Val, bool) {
 		return nil, false
 	}
 	cands := fr.names[name]
+	if len(cands) == 0 && name == "rangeindex" {
+		// a contract written for "for i := range s" applied to the counted form
+		// "for i := 0; i < n; i++": the last completed index is i - 1
+		for li := fr.inLoop[env.blk]; li != nil; li = li.parent {
+			var found *ssa.Phi
+			n := 0
+			for _, in := range li.header.Instrs {
+				phi, ok := in.(*ssa.Phi)
+				if !ok {
+					break
+				}
+				if b, isInt := phi.Type().Underlying().(*types.Basic); !isInt || b.Kind() != types.Int {
+					continue
+				}
+				fromZero, stepOne := false, false
+				for k, e := range phi.Edges {
+					pred := li.header.Preds[k]
+					if li.blocks[pred] {
+						if bo, ok := e.(*ssa.BinOp); ok && bo.Op == token.ADD && bo.X == ssa.Value(phi) {
+							if c1, ok := bo.Y.(*ssa.Const); ok && c1.Value != nil && c1.Value.ExactString() == "1" {
+								stepOne = true
+							}
+						}
+					} else if c0, ok := e.(*ssa.Const); ok && c0.Value != nil && c0.Value.ExactString() == "0" {
+						fromZero = true
+					}
+				}
+				if fromZero && stepOne {
+					found = phi
+					n++
+				}
+			}
+			if n == 1 {
+				var pv Val
+				if v, ok := env.phis[found]; ok {
+					pv = v
+				} else if v, ok := fr.vals[found]; ok {
+					pv = v
+				}
+				if t, ok := pv.(T); ok {
+					return app(SInt, "-", t, intLit(1)), true
+				}
+			}
+			break // only the innermost loop
+		}
+	}
 	if len(cands) == 0 {
 		return nil, false
 	}
